@@ -2,6 +2,7 @@ package vsched
 
 import (
 	"fmt"
+	"os"
 	"unsafe"
 )
 
@@ -102,6 +103,9 @@ func (s *Sched) hbCheck(addr unsafe.Pointer, name string, write bool) {
 		return
 	}
 	key := uintptr(addr)
+	if raceDebug && name == os.Getenv("VSCHED_RACE_DEBUG") {
+		fmt.Fprintf(os.Stderr, "vsched access: %s write=%v by %s vc=%v\n", name, write, t.name, t.vc)
+	}
 	m := s.mem[key]
 	if m == nil {
 		m = &memState{name: name, keep: addr, reads: map[int]epoch{}}
@@ -129,7 +133,12 @@ func (s *Sched) hbCheck(addr unsafe.Pointer, name string, write bool) {
 	}
 }
 
+var raceDebug = os.Getenv("VSCHED_RACE_DEBUG") != ""
+
 func (s *Sched) race(msg string) {
+	if raceDebug {
+		fmt.Fprintln(os.Stderr, "vsched race:", msg)
+	}
 	if !s.raceSeen[msg] {
 		s.raceSeen[msg] = true
 		s.Races = append(s.Races, msg)
@@ -172,4 +181,54 @@ func WN[T any](p *T, name string) *T {
 		s.hbCheck(unsafe.Pointer(p), name, true)
 	}
 	return p
+}
+
+// Element-level events of the blanket instrumentation (vrewrite watchelems): the backing arrays of slices are
+// where a scratch buffer hoisted out of a function is shared, and the field or variable holding the slice header
+// is only ever READ by the racing threads.
+
+// AppendW records the write that append(a, ...) performs into a's backing array when it has room (the first
+// free slot stands for all of them) and returns a.
+func AppendW[T any](a []T, name string) []T {
+	if s := active; s != nil && !s.unwinding() && cap(a) > len(a) {
+		s.hbCheck(unsafe.Pointer(&a[:len(a)+1][len(a)]), name, true)
+	}
+	return a
+}
+
+// SliceW / SliceR record a write / read of the first and last element of a (copy destinations and sources,
+// variadic append sources) and return a.
+func SliceW[T any](a []T, name string) []T {
+	if s := active; s != nil && !s.unwinding() && len(a) > 0 {
+		s.hbCheck(unsafe.Pointer(&a[0]), name, true)
+		if len(a) > 1 {
+			s.hbCheck(unsafe.Pointer(&a[len(a)-1]), name, true)
+		}
+	}
+	return a
+}
+
+func SliceR[T any](a []T, name string) []T {
+	if s := active; s != nil && !s.unwinding() && len(a) > 0 {
+		s.hbCheck(unsafe.Pointer(&a[0]), name, false)
+		if len(a) > 1 {
+			s.hbCheck(unsafe.Pointer(&a[len(a)-1]), name, false)
+		}
+	}
+	return a
+}
+
+// MapR / MapW record a read / write of the map m (keyed by its header) and return m.
+func MapR[M ~map[K]V, K comparable, V any](m M, name string) M {
+	if s := active; s != nil && !s.unwinding() && m != nil {
+		s.hbCheck(*(*unsafe.Pointer)(unsafe.Pointer(&m)), name, false)
+	}
+	return m
+}
+
+func MapW[M ~map[K]V, K comparable, V any](m M, name string) M {
+	if s := active; s != nil && !s.unwinding() && m != nil {
+		s.hbCheck(*(*unsafe.Pointer)(unsafe.Pointer(&m)), name, true)
+	}
+	return m
 }
